@@ -293,6 +293,10 @@ def run(chk):
         "vocabulary and rendered by the independent OT-SVG oracle; random scenarios over picosvg(z)/untouchedsvg(z) "
         "with shuffled input order.  Non-trivial = a multi-glyph document or a <defs> migration; distinct by scenario."
     )
+    # trusted base first: the OT-SVG oracle must agree with an independent renderer on real documents
+    from . import oracle_selftest
+
+    chk.notes["oracle_selftest_vs_resvg"] = oracle_selftest.otsvg_side(10 if quick else 80)
     res = common.run_tlc("OTSVG", "OTSVG_small.cfg" if quick else "OTSVG_full.cfg", timeout=3000)
     chk.add_tlc(res, "OTSVG (exhaustive)")
     if not res.ok:
